@@ -154,6 +154,54 @@ func witnessStuckImmutable(c *core.Ctx) {
 	c.Note(fmt.Sprintf("forward family after prepare-on-empty + write + flush: level0=%d level1=%d files", l0, l1))
 }
 
+// witnessInsideFlush: the "being flushed" state. Queries run from inside the real
+// metricIndexDatabase.Flush / metricMetaDatabase.Flush at every sst-file creation and at the kv
+// layer's version-install yield points; then an index flush whose inverted-file creation fails, queries,
+// and the retry. At every point the selected series must equal brute force: an entry is readable from
+// `files ∪ mutable ∪ immutable` throughout because `immutable = nil` runs only after flusher.Close().
+func witnessInsideFlush(c *core.Ctx) {
+	d, err := newDBT(c)
+	if err != nil {
+		c.Fail("harness-env", err.Error())
+		return
+	}
+	defer d.close()
+	var qs []probeQuery
+	for _, w := range []string{"'host' = 'a'", "'host' != 'a'", "'host' in ('a','c') or 'zone' like 'z*'", "'host' not like 'b*' and 'zone' = 'z1'"} {
+		if cond, gb, ok := mustParse(c, w, []string{"host"}); ok {
+			qs = append(qs, probeQuery{metric: "cpu", cond: cond, groupBy: gb, how: "sql"})
+		}
+	}
+	d.write("cpu", map[string]string{"host": "a", "zone": "z1"})
+	d.write("cpu", map[string]string{"host": "b", "zone": "z1"})
+	flushAll(d)
+	d.write("cpu", map[string]string{"host": "a", "zone": "z2"})
+	d.write("cpu", map[string]string{"host": "c"})
+	d.place("prepare-index")
+	d.write("cpu", map[string]string{"host": "a", "zone": "z3"}) // lands in the new mutable tables
+	d.flushInside(false, "", qs)
+	d.write("cpu", map[string]string{"host": "ab", "zone": "z1"})
+	d.write("cpu", map[string]string{"host": "a"})
+	d.place("prepare-index")
+	d.flushInside(false, "inverted", qs) // forward flushed, inverted fails: its batch must stay readable
+	for _, q := range qs {
+		d.query(q.metric, q.cond, q.groupBy, q.how)
+	}
+	d.place("prepare-index")
+	d.flushInside(false, "forward", qs)
+	d.place("flush-index") // the retry
+	for _, q := range qs {
+		d.query(q.metric, q.cond, q.groupBy, q.how)
+	}
+	d.place("prepare-meta")
+	d.flushInside(true, "tv", qs)
+	d.flushInside(true, "", qs)
+	d.place("compact-index")
+	for _, q := range qs {
+		d.query(q.metric, q.cond, q.groupBy, q.how)
+	}
+}
+
 // ---------------------------------------------------------------- forward reader / merger on raw buffers
 
 // capture is a kv.Flusher + table.StreamWriter that keeps the committed values in memory.
@@ -492,6 +540,7 @@ func witnessLut(c *core.Ctx) {
 // the writes. Implementation + brute-force oracle only: the list model needs O(n²) steps for that many
 // writes (container boundaries of the model are covered by the reader cases on raw buffers).
 func bigCase(c *core.Ctx, r *rand.Rand) {
+	// (case index nWitness+1 in the thorough tier)
 	d, err := newDBT(c)
 	if err != nil {
 		c.Fail("harness-env", err.Error())
